@@ -1,3 +1,4 @@
+#![allow(dead_code)]
 //! Correspondence harness: drives the real norad API (path dependency on /repo) and prints one
 //! canonical line per case: `<model> <input tokens> => <observation tokens>`.
 mod common;
